@@ -62,6 +62,19 @@ let run_line (line : string) : string =
       Printf.sprintf "reply=%s seed=%d rand_calls=1 login=%s auth=%d"
         (hex_of_bytes (srv_version_reply seed (z_of_int (int_of_string uid))))
         (int_of_n (u32_of_Z seed)) (if ok then "ACCEPT" else "LNAK") (if ok then 1 else 0)
+  | [ "SV"; phex; r; uid; _; hhex; rawhex ] ->
+      (* the same, then handle_raw_login on the payload of a raw login datagram: the challenge of the version reply still holds *)
+      let p = bytes_of_hex phex in
+      let seed = int_of_u32 (n_of_dec r) in
+      let h = take 16 (bytes_of_hex hhex @ List.init 16 (fun _ -> N0)) in
+      let ok = srv_login_accepts p seed h in
+      Printf.sprintf "reply=%s seed=%d rand_calls=1 login=%s auth=%d raw=%s"
+        (hex_of_bytes (srv_version_reply seed (z_of_int (int_of_string uid))))
+        (int_of_n (u32_of_Z seed)) (if ok then "ACCEPT" else "LNAK") (if ok then 1 else 0)
+        (if not ok then "NONE" else
+         match raw_server p (n_of_dec r) (bytes_of_hex rawhex) with
+         | None -> "NONE"
+         | Some rr -> hex_of_bytes rr)
   | [ "SN"; vhex; _ ] ->
       (* iodined.c 'V' branch on a version message that is not the server's version *)
       if srv_version_matches (bytes_of_hex vhex) then "VERSION-MATCHES"
